@@ -265,6 +265,49 @@ impl GVal {
         })
     }
 
+    /// generator-independent JSON encoding (replay files)
+    pub fn to_json(&self) -> serde_json::Value {
+        use serde_json::json;
+        match self {
+            GVal::Null => serde_json::Value::Null,
+            GVal::Bool(b) => json!(b),
+            GVal::Int(i) => json!({"i": i.to_string()}),
+            GVal::Float(f) => json!({"f": format!("{:016x}", f.to_bits())}),
+            GVal::Str(s) => json!(s),
+            GVal::List(l) => serde_json::Value::Array(l.iter().map(|e| e.to_json()).collect()),
+            GVal::Tuple(fs) => json!({"t": fs.iter().map(|(k, v)| json!([k, v.to_json()])).collect::<Vec<_>>()}),
+            GVal::Constraint => json!({"c": 1}),
+        }
+    }
+
+    pub fn from_json(j: &serde_json::Value) -> Option<GVal> {
+        use serde_json::Value as J;
+        Some(match j {
+            J::Null => GVal::Null,
+            J::Bool(b) => GVal::Bool(*b),
+            J::String(s) => GVal::Str(s.clone()),
+            J::Array(a) => GVal::List(a.iter().map(GVal::from_json).collect::<Option<Vec<_>>>()?),
+            J::Object(m) => {
+                if let Some(i) = m.get("i") {
+                    GVal::Int(i.as_str()?.parse().ok()?)
+                } else if let Some(f) = m.get("f") {
+                    GVal::Float(f64::from_bits(u64::from_str_radix(f.as_str()?, 16).ok()?))
+                } else if let Some(t) = m.get("t") {
+                    let mut fs = vec![];
+                    for kv in t.as_array()? {
+                        fs.push((kv.get(0)?.as_str()?.to_string(), GVal::from_json(kv.get(1)?)?));
+                    }
+                    GVal::Tuple(fs)
+                } else if m.contains_key("c") {
+                    GVal::Constraint
+                } else {
+                    return None;
+                }
+            }
+            J::Number(_) => return None,
+        })
+    }
+
     pub fn show(&self) -> String {
         match self {
             GVal::Null => "NULL".into(),
